@@ -41,6 +41,7 @@ func (c13) Gen(seed int64, tier string, avoid []string) *Plan {
 		cfg.KSeed = append(cfg.KSeed, r.Int63())
 	}
 	p.PoolDrop = pick(r, 0, 0, 200)
+	cfg.LibStallUs = int64(pick(r, 0, 0, -1, 300, 3000))
 	opt := rigTrafficOpts{nackBias: true, bigPayload: chance(r, 300)}
 	for _, k := range cfg.Kinds {
 		if k == "jitterbuffer" {
